@@ -75,6 +75,8 @@ def runTimeCase (id : String) (pipe : SExp) (events : List (List SExp)) : List S
       | .atom "q" :: .atom "timers" :: _ =>
         s!"{id}.{k} timers=[{String.intercalate "," (w.sched.timers.map fun t => toString t.dur)}]"
           :: go w (k + 1) r
+      | .atom "q" :: .atom "closed" :: _ =>
+        s!"{id}.{k} closed={if w.isClosed then "1" else "0"}" :: go w (k + 1) r
       | _ =>
         match parseEv ev with
         | some x =>
